@@ -4,7 +4,7 @@
 (* specification executes the same guest program, event by event.          *)
 (*                                                                         *)
 (*   load : (re)initialised machine - full register file, memory image     *)
-(*   req  : a peripheral requests interrupt v                    (C10)     *)
+(*   vReq  : a peripheral requests interrupt v                    (C10)     *)
 (*   acc  : instruction boundary: the pending queue is consulted (C10,C06) *)
 (*   step : one instruction (fetch + exec)                  (C01-C08, C05) *)
 (*   end  : end of a stepped program: all requests must have been entered  *)
@@ -12,7 +12,7 @@
 (* Run-loop events (poll / it / ret, properties C13, C18, C10, C17) are    *)
 (* handled by the second half of the module.                               *)
 (***************************************************************************)
-EXTENDS H8Obs, H8Intc, H8Port, H8Timer, H8Sock, Json, IOUtils, SequencesExt
+EXTENDS H8Obs, H8Deviations, H8Intc, H8Port, H8Timer, H8Sock, Json, IOUtils, SequencesExt
 
 Rec  == ndJsonDeserialize(IOEnv.TRACE)
 PROP == IOEnv.PROP
@@ -20,93 +20,303 @@ NRec == Len(Rec)
 INTERVAL == 2000000            \* sync message interval in states
 
 VARIABLES l, cov,
-          s,        \* machine state [er, ccr, pc, mem]
-          pend,     \* pending interrupt requests (sequence)
-          req, ent, \* ghost counters [vector -> number requested / entered] since the last load
-          sum,      \* cumulative state count <<millions, units>>
-          ports, odr,   \* port records (intended) and last observed DR bytes
-          tm,       \* timer trace state
-          paused, stopped, exitaddr, dirty
-vars == <<l, cov, s, pend, req, ent, sum, ports, odr, tm, paused, stopped, exitaddr, dirty>>
-runvars == <<sum, ports, odr, tm, paused, stopped, exitaddr, dirty>>
+          vS,        \* machine state [er, ccr, pc, ov, li]: ov = bytes written so far, li = index of the `load`
+                    \* event whose image the history started from (TLC compares whole states whenever it
+                    \* reuses a cached LET value, so the state must stay SMALL: the image itself is not in it)
+          vPend,     \* pending interrupt requests (sequence)
+          vReq, vEnt, \* ghost histories: vectors requested / entered since the last load (sequences)
+          vSum,      \* cumulative state count <<millions, units>>
+          vPorts, vOdr,   \* port records (intended) and last observed DR bytes
+          vTm,       \* timer trace state
+          vPaused, vStopped, vExit, vDirty
+vars == <<l, cov, vS, vPend, vReq, vEnt, vSum, vPorts, vOdr, vTm, vPaused, vStopped, vExit, vDirty>>
+runvars == <<vSum, vPorts, vOdr, vTm, vPaused, vStopped, vExit, vDirty>>
 
-Zero64 == [v \in 0..255 |-> 0]
+Zero64 == <<>>
+(* the memory image of the current history and the full machine state handed to H8Exec *)
+M(st) == [bg |-> Rec[st.li].bg, runs |-> Rec[st.li].pk, ov |-> st.ov]
+SS(st) == [er |-> st.er, ccr |-> st.ccr, pc |-> st.pc, mem |-> M(st)]
+CountIn(sq, v) == Cardinality({i \in 1..Len(sq) : sq[i] = v})
 Rep(kind, e, what, extra) ==
   PrintT(kind \o " " \o ToJson([id |-> e.id, prop |-> PROP, row |-> what, exp |-> "ok", got |-> IF "res" \in DOMAIN e THEN e.res ELSE "-",
                                 fields |-> extra, dev |-> IF kind = "DEVIATION" THEN extra[1] ELSE ""]))
 
-StateOfLoad(e) == [er |-> ErOf(e.pre), ccr |-> CcrOf(e.pre), pc |-> PcOf(e.pre), mem |-> MemOf(e.bg, e.pk)]
-PostState(e, mem2) == [er |-> ErOf(e.post), ccr |-> CcrOf(e.post), pc |-> PcOf(e.post), mem |-> mem2]
+StateOfLoad(e) == [er |-> ErOf(e.pre), ccr |-> CcrOf(e.pre), pc |-> PcOf(e.pre), ov |-> <<>>, li |-> l]
+PostState(e, mem2) == [er |-> ErOf(e.post), ccr |-> CcrOf(e.post), pc |-> PcOf(e.post), ov |-> mem2.ov, li |-> vS.li]
 
 LoadEvent(e) ==
-  /\ s' = StateOfLoad(e)
-  /\ pend' = e.pend
-  /\ req' = [v \in 0..255 |-> Cardinality({i \in 1..Len(e.pend) : e.pend[i] = v})]
-  /\ ent' = Zero64
-  /\ sum' = <<0, 0>> /\ ports' = [k \in Ports |-> PortInit] /\ odr' = [k \in Ports |-> 0]
-  /\ tm' = TimerTraceInit /\ paused' = FALSE /\ stopped' = FALSE /\ dirty' = {}
-  /\ exitaddr' = IF "exit" \in DOMAIN e THEN e.exit[1] * P16 + e.exit[2] ELSE -1
+  /\ vS' = StateOfLoad(e)
+  /\ vPend' = e.pend
+  /\ vReq' = e.pend
+  /\ vEnt' = <<>>
+  /\ vSum' = <<0, 0>> /\ vPorts' = [k \in Ports |-> PortInit] /\ vOdr' = [k \in Ports |-> 0]
+  /\ vTm' = TimerTraceInit /\ vPaused' = FALSE /\ vStopped' = FALSE /\ vDirty' = {}
+  /\ vExit' = IF "exit" \in DOMAIN e THEN e.exit[1] * P16 + e.exit[2] ELSE -1
   /\ UNCHANGED cov
 
 ReqEvent(e) ==
-  /\ pend' = Request(pend, e.v)
-  /\ req' = [req EXCEPT ![e.v] = @ + 1]
-  /\ UNCHANGED <<cov, s, ent, runvars>>
+  /\ vPend' = Request(vPend, e.v)
+  /\ vReq' = Append(vReq, e.v)
+  /\ UNCHANGED <<cov, vS, vEnt, runvars>>
 
-(* the logged queue must be the spec's multiset of pending requests *)
+(* the logged queue must be the spec'vS multiset of pending requests *)
 SameBag(a, b) == Len(a) = Len(b) /\ \A v \in 0..255 : Cardinality({i \in 1..Len(a) : a[i] = v}) = Cardinality({i \in 1..Len(b) : b[i] = v})
 
 (* instruction boundary: e.entered = vector entered, 0 = none *)
 AccEvent(e) ==
   IF e.entered = 0 THEN
     (* not accepting is always allowed at a single boundary (C10 is an eventuality; see `end`) *)
-    /\ IF e.res = "ok" /\ ErOf(e.post) = s.er /\ CcrOf(e.post) = s.ccr /\ PcOf(e.post) = s.pc /\ e.wr = <<>> /\ SameBag(e.pend, pend) THEN TRUE
+    /\ IF e.res = "ok" /\ ErOf(e.post) = vS.er /\ CcrOf(e.post) = vS.ccr /\ PcOf(e.post) = vS.pc /\ e.wr = <<>> /\ SameBag(e.pend, vPend) THEN TRUE
        ELSE Rep("MISMATCH", e, "boundary without acceptance", <<"state changed">>)
-    /\ cov' = cov \cup {<<"acc", IF Len(pend) = 0 THEN "idle" ELSE IF IFlag(s) = 1 THEN "masked" ELSE "deferred">>}
-    /\ UNCHANGED <<s, pend, req, ent, runvars>>
+    /\ cov' = cov \cup {<<"acc", IF Len(vPend) = 0 THEN "idle" ELSE IF IFlag(vS) = 1 THEN "masked" ELSE "deferred">>}
+    /\ UNCHANGED <<vS, vPend, vReq, vEnt, runvars>>
   ELSE
     LET v  == e.entered
-        x  == AcceptF(s, v)
-        ok == /\ CanAccept(s, pend, v)                       \* pending, and the I bit is clear
-              /\ (x.res = "ok" => e.res = "ok" /\ PostOK(e, s, x))
+        x  == AcceptF(SS(vS), v)
+        ok == /\ CanAccept(vS, vPend, v)                       \* pending, and the I bit is clear
+              /\ (x.res = "ok" => e.res = "ok" /\ PostOK(e, SS(vS), x))
               /\ (x.res = "err" => e.res = "err")
-              /\ SameBag(e.pend, RemoveOne(pend, v))
-        why == IF ~IsPending(pend, v) THEN "entered a vector that was not requested"
-               ELSE IF IFlag(s) = 1 THEN "accepted while CCR.I is set" ELSE "entry frame / vector / state"
+              /\ SameBag(e.pend, RemoveOne(vPend, v))
+        why == IF ~IsPending(vPend, v) THEN "entered a vector that was not requested"
+               ELSE IF IFlag(vS) = 1 THEN "accepted while CCR.I is set" ELSE "entry frame / vector / state"
     IN /\ IF ok THEN TRUE ELSE Rep("MISMATCH", e, "interrupt acceptance", <<why>>)
-       /\ s' = PostState(e, WrAll(s.mem, e.wr))
-       /\ pend' = e.pend
-       /\ ent' = [ent EXCEPT ![v] = @ + 1]
+       /\ vS' = PostState(e, WrAll(M(vS), e.wr))
+       /\ vPend' = e.pend
+       /\ vEnt' = Append(vEnt, v)
        /\ cov' = cov \cup {<<"acc", "entered">>}
-       /\ UNCHANGED <<req, runvars>>
+       /\ UNCHANGED <<vReq, runvars>>
 
 StepOK(e, x) ==
   IF x.pw THEN e.res # "panic"
-  ELSE IF x.res = "ok" THEN e.res = "ok" /\ PostOK(e, s, x) /\ (PROP \in {"C20", "ALL"} /\ x.cyc >= 0 => e.st = x.cyc)
+  ELSE IF x.res = "ok" THEN e.res = "ok" /\ PostOK(e, SS(vS), x) /\ (PROP \in {"C20", "ALL"} /\ x.cyc >= 0 => e.st = x.cyc)
   ELSE IF x.res = "err" THEN e.res # "ok"
   ELSE e.res # "panic"
 
 StepEvent(e) ==
-  LET x == StepF(s)
+  LET x == StepF(SS(vS))
       ok == StepOK(e, x)
-      dev == IF ok THEN "" ELSE DevName([e EXCEPT !.res = e.res] @@ [con |-> <<>>, msgs |-> <<>>], s, x, PROP)
+      dev == IF ok THEN "" ELSE DevName(e, SS(vS), x, PROP)
   IN /\ IF ok THEN TRUE
-        ELSE IF dev # "" THEN Rep("DEVIATION", e, RowName2(x), <<dev>>)
-        ELSE Rep("MISMATCH", e, RowName2(x), Diffs2(e, s, x))
-     /\ s' = PostState(e, WrAll(s.mem, e.wr))
-     /\ cov' = cov \cup {<<"step", RowName2(x)>>}
-     /\ UNCHANGED <<pend, req, ent, runvars>>
+        ELSE IF dev # "" THEN Rep("DEVIATION", e, RowName(x), <<dev>>)
+        ELSE Rep("MISMATCH", e, RowName(x), Diffs(e, SS(vS), x))
+     /\ vS' = PostState(e, WrAll(M(vS), e.wr))
+     /\ cov' = cov \cup {<<"step", RowName(x)>>}
+     /\ UNCHANGED <<vPend, vReq, vEnt, runvars>>
 
 (* end of a stepped program whose tail ran with I = 0: nothing may be left pending, and every *)
 (* request was entered exactly once through its own vector                                    *)
 EndEvent(e) ==
-  /\ IF Len(pend) = 0 /\ \A v \in 0..255 : ent[v] = req[v] THEN TRUE
+  /\ IF Len(vPend) = 0 /\ \A v \in 0..255 : CountIn(vEnt, v) = CountIn(vReq, v) THEN TRUE
      ELSE Rep("MISMATCH", e, "end of program", <<"requests lost or duplicated">>)
   /\ cov' = cov \cup {<<"end", "">>}
-  /\ UNCHANGED <<s, pend, req, ent, runvars>>
+  /\ UNCHANGED <<vS, vPend, vReq, vEnt, runvars>>
 
 CmpEvent(e) ==
   /\ IF e.a = e.b THEN TRUE ELSE Rep("MISMATCH", e, "cmp " \o e.what, <<"projections differ">>)
   /\ cov' = cov \cup {<<"cmp", e.what>>}
-  /\ UNCHANGED <<s, pend, req, ent, runvars>>
+  /\ UNCHANGED <<vS, vPend, vReq, vEnt, runvars>>
+
+(***************************************************************************)
+(* ======================  run loop (C13, C18, C10, C17)  ================ *)
+(* One iteration of Cpu::run =  Poll . (vPaused ? skip : Accept? . Step .   *)
+(* Account . Sync? . Tick . ExitTest).  The specification has NO wall      *)
+(* clock: pacing is invisible by construction, which is the determinism    *)
+(* claim of C13 - every run must be this one behaviour.                    *)
+(***************************************************************************)
+Mil == 1000000
+SumAdd(a, n) == LET u == a[2] + n IN <<a[1] + (u \div Mil), u % Mil>>
+SumInt(a) == a[1] * Mil + a[2]                    \* only used while it stays below 2^31
+Pad6(u) == LET d == DecStr(u) IN [i \in 1..(6 - Len(d)) |-> 48] \o d
+SumStr(a) == IF a[1] = 0 THEN DecStr(a[2]) ELSE DecStr(a[1]) \o Pad6(a[2])
+SyncMsg(a) == <<115, 121, 110, 99, 58>> \o SumStr(a)          \* "sync:<total>"
+IoportMsgS(n, v, a) == IoportPrefix \o HexStr(n) \o <<58>> \o HexStr(v) \o <<58>> \o SumStr(a)
+
+(* ---- a sequence of byte stores through the bus (control lines, instruction writes), with the  *)
+(* ---- announcements they must produce consumed from the observed message stream in order       *)
+(* acc = [vPorts, mem, vTm, mi, ok]                                                                *)
+StoreOne(acc, a, v, msgs, stamp) ==
+  IF ~Accessible(a) THEN acc
+  ELSE IF IsPortReg(a) THEN
+    LET n == IF IsDdr(a) THEN a - DdrLo + 1 ELSE a - DrLo + 1
+        p == acc.ports[n]
+        q == IF IsDdr(a) THEN PWriteDDR(p, v) ELSE PWriteDR(p, v)
+        must == q.written /\ p.written /\ OutVal(p) # OutVal(q)
+        nxt == IF acc.mi <= Len(msgs) THEN msgs[acc.mi] ELSE <<>>
+        hit == q.written /\ nxt = IoportMsgS(n, OutVal(q), stamp)
+        free == ~q.written /\ acc.mi <= Len(msgs) /\ (\E vv \in 0..255 : nxt = IoportMsgS(n, vv, stamp))
+    IN [acc EXCEPT !.ports[n] = q,
+                   !.mi = IF hit \/ free THEN @ + 1 ELSE @,
+                   !.ok = @ /\ (must => hit)]
+  ELSE [acc EXCEPT !.mem = WrAll(@, << <<a, v>> >>), !.tm = TimerWrite(@, a, v, acc.mem)]
+
+PinOne(acc, n, v) == IF n \in Ports THEN [acc EXCEPT !.ports[n] = PExtIn(@, v)] ELSE acc
+
+(* ---- control lines of one poll, in order --------------------------------------------------- *)
+RECURSIVE LinesFold(_, _, _, _, _)
+LinesFold(acc, lines, i, msgs, stamp) ==
+  IF i > Len(lines) \/ acc.stopped THEN acc
+  ELSE LET f == LineEffect(lines[i])
+           a2 == CASE f.k = "pause" -> [acc EXCEPT !.paused = TRUE]
+                   [] f.k = "start" -> [acc EXCEPT !.paused = FALSE]
+                   [] f.k = "stop"  -> [acc EXCEPT !.stopped = TRUE]
+                   [] f.k = "u8"    -> StoreOne(acc, f.a, f.v, msgs, stamp)
+                   [] f.k = "pin"   -> PinOne(acc, f.p, f.v)
+                   [] f.k = "dubious" -> [acc EXCEPT !.dub = TRUE]
+                   [] OTHER -> acc
+       IN LinesFold(a2, lines, i + 1, msgs, stamp)
+
+NonSpecial(a) == ~IsPortReg(a) /\ a # TCNT0 /\ a # TCSR0
+(* logged diff d agrees with memory m2 (after) relative to m1 (before) on all plain addresses *)
+PlainDiffOK(d, m1, m2) ==
+  /\ \A i \in 1..Len(d) : NonSpecial(d[i][1]) => Rd(m2, d[i][1]) = d[i][2]
+  /\ \A a \in DOMAIN m2.ov : (NonSpecial(a) /\ Rd(m2, a) # Rd(m1, a)) => \E i \in 1..Len(d) : d[i][1] = a /\ d[i][2] = Rd(m2, a)
+PortsReadOK(pp, dr) == \A n \in Ports : ReadOK(pp[n], dr[n])
+
+PollEvent(e) ==
+  LET acc0 == [ports |-> vPorts, mem |-> M(vS), tm |-> vTm, mi |-> 1, ok |-> TRUE, paused |-> vPaused, stopped |-> vStopped, dub |-> FALSE]
+      acc  == LinesFold(acc0, e.lines, 1, e.msgs, e.sum)
+      ok   == /\ acc.ok /\ acc.mi = Len(e.msgs) + 1                 \* every announcement owed was made, nothing else was said
+              /\ PlainDiffOK(e.wr, M(vS), acc.mem)
+              /\ PortsReadOK(acc.ports, e.dr)
+              /\ ~acc.stopped                                        \* after a stop line run() returns: no further poll is observed
+              /\ e.sum = vSum
+  IN /\ IF ok \/ acc.dub THEN TRUE ELSE Rep("MISMATCH", e, "control lines of one poll", <<"effects of the lines">>)
+     /\ vS' = [vS EXCEPT !.ov = WrAll(acc.mem, e.wr).ov]
+     /\ vPorts' = acc.ports /\ vOdr' = [n \in Ports |-> e.dr[n]] /\ vTm' = acc.tm
+     /\ vPaused' = acc.paused /\ vStopped' = acc.stopped
+     /\ cov' = cov \cup {<<"poll", IF Len(e.lines) = 0 THEN "empty" ELSE IF Len(e.lines) = 1 THEN "single" ELSE "batch">>}
+     /\ UNCHANGED <<vPend, vReq, vEnt, vSum, vExit, vDirty>>
+
+(* ---- one iteration -------------------------------------------------------------------------- *)
+RegsOK(post, x) ==
+  /\ ErOf(post) = x.er /\ (CcrOf(post) & x.cm) = (x.ccr & x.cm)
+  /\ post[18] = x.pc \div P16 /\ post[19] = x.pc % P16
+BagMinus(big, small) ==        \* elements of big not matched by small (as a sequence); big must contain small
+  LET RECURSIVE F(_, _)
+      F(b, sm) == IF Len(sm) = 0 THEN b ELSE F(RemoveOne(b, sm[1]), Tail(sm))
+  IN F(big, small)
+SubBagOf(small, big) == \A v \in 0..255 : Cardinality({i \in 1..Len(small) : small[i] = v}) <= Cardinality({i \in 1..Len(big) : big[i] = v})
+
+(* state after accepting candidate c (0 = none): [ok, vS, wr] *)
+AfterAccept(c) ==
+  IF c = 0 THEN [ok |-> TRUE, s |-> SS(vS), wr |-> <<>>]
+  ELSE LET x == AcceptF(SS(vS), c)
+           w == CHOOSE q \in x.wr : TRUE
+       IN [ok |-> x.res = "ok", s |-> [er |-> x.er, ccr |-> x.ccr, pc |-> x.pc, mem |-> WrAll(M(vS), w)], wr |-> w]
+
+ItEvent(e) ==
+  LET cands == {0} \cup {v \in 1..255 : CanAccept(vS, vPend, v)}
+      try(c) == LET a == AfterAccept(c) IN [c |-> c, a |-> a, x |-> StepF(a.s)]
+      good(c) == LET t == try(c) IN t.a.ok /\ (t.x.res = "any" \/ (t.x.res = "ok" /\ RegsOK(e.post, t.x)))
+      G == {c \in cands : good(c)}
+      c == IF G = {} THEN 0 ELSE CHOOSE v \in G : TRUE
+      t == try(c)
+      x == t.x
+      anyx == x.res = "any"
+      (* instruction writes: the admissible alternative that agrees with the log, wild cards resolved from the log *)
+      alts == {w \in x.wr : \A i \in 1..Len(w) : w[i][2] = -1 \/ ~NonSpecial(w[i][1])
+                                  \/ (LET dv == {j \in 1..Len(e.wr) : e.wr[j][1] = w[i][1]}
+                                      IN IF dv = {} THEN Rd(t.a.s.mem, w[i][1]) = w[i][2] ELSE e.wr[CHOOSE j \in dv : TRUE][2] = w[i][2])}
+      w == IF alts = {} THEN <<>> ELSE CHOOSE q \in alts : TRUE
+      resolved == [i \in 1..Len(w) |-> IF w[i][2] # -1 THEN w[i]
+                                       ELSE LET dv == {j \in 1..Len(e.wr) : e.wr[j][1] = w[i][1]}
+                                            IN <<w[i][1], IF dv = {} THEN Rd(t.a.s.mem, w[i][1]) ELSE e.wr[CHOOSE j \in dv : TRUE][2]>>]
+      acc0 == [ports |-> vPorts, mem |-> t.a.s.mem, tm |-> vTm, mi |-> 1, ok |-> TRUE, paused |-> FALSE, stopped |-> FALSE, dub |-> FALSE]
+      RECURSIVE WFold(_, _)
+      WFold(acc, i) == IF i > Len(resolved) THEN acc ELSE WFold(StoreOne(acc, resolved[i][1], resolved[i][2], e.msgs, vSum), i + 1)
+      acc == WFold(acc0, 1)
+      (* messages of the iteration: announcements of port writes, the stdout message of a write call, then sync *)
+      sum2 == SumAdd(vSum, e.st)
+      crossed == sum2[1] \div 2 > vSum[1] \div 2
+      rest == SubSeq(e.msgs, acc.mi, Len(e.msgs))
+      expRest == (IF x.sys = "write" /\ (Len(x.con) > 0 \/ (Len(rest) > 0 /\ rest[1] = StdoutPrefix)) THEN <<StdoutPrefix \o x.con>> ELSE <<>>)
+                 \o (IF crossed THEN <<SyncMsg(sum2)>> ELSE <<>>)
+      memI == acc.mem                                  \* memory after the instruction, before the timer
+      (* timer: the charged states are what the peripherals see *)
+      kept == IF c = 0 THEN vPend ELSE RemoveOne(vPend, c)
+      newreq == IF SubBagOf(kept, e.pend) THEN BagMinus(e.pend, kept) ELSE <<>>
+      tk == TimerTick(acc.tm, [n |-> e.st, tcnt |-> e.tcnt, tcsr |-> e.tcsr, req |-> newreq, wr |-> <<>>], memI)
+      memT == tk.bm
+      ok == /\ ~vPaused /\ ~vStopped /\ vS.pc # vExit
+            /\ G # {}
+            /\ (anyx \/ (/\ alts # {} /\ acc.ok
+                         /\ rest = expRest
+                         /\ e.con = x.con
+                         /\ PlainDiffOK(e.wr, M(vS), memI)
+                         /\ PortsReadOK(acc.ports, e.dr)))
+            /\ e.sum = sum2
+            /\ SubBagOf(kept, e.pend)
+            /\ tk.ok
+      why == (IF vPaused THEN <<"executed while vPaused">> ELSE <<>>) \o (IF vStopped THEN <<"executed after stop">> ELSE <<>>)
+             \o (IF vS.pc = vExit THEN <<"continued past the exit address">> ELSE <<>>)
+             \o (IF G = {} THEN <<"registers / pc / ccr after the instruction (with any admissible interrupt acceptance)">> ELSE <<>>)
+             \o (IF G # {} /\ ~anyx /\ (alts = {} \/ ~PlainDiffOK(e.wr, M(vS), memI)) THEN <<"memory">> ELSE <<>>)
+             \o (IF G # {} /\ ~anyx /\ (~acc.ok \/ rest # expRest) THEN <<"messages">> ELSE <<>>)
+             \o (IF G # {} /\ ~anyx /\ e.con # x.con THEN <<"console">> ELSE <<>>)
+             \o (IF e.sum # sum2 THEN <<"state count">> ELSE <<>>)
+             \o (IF ~SubBagOf(kept, e.pend) THEN <<"pending request lost">> ELSE <<>>)
+             \o (IF ~tk.ok THEN <<"timer: " \o tk.why>> ELSE <<>>)
+  IN /\ IF ok THEN TRUE ELSE Rep("MISMATCH", e @@ [res |-> "it"], RowName(x), why)
+     /\ vS' = PostState(e, WrAll(memT, e.wr))
+     /\ vPend' = e.pend
+     /\ vReq' = <<>>
+     /\ vEnt' = <<>>
+     /\ vSum' = e.sum
+     /\ vPorts' = acc.ports /\ vOdr' = [n \in Ports |-> e.dr[n]]
+     /\ vTm' = tk.tm
+     /\ cov' = cov \cup {<<"it", RowName(x)>>} \cup (IF c # 0 THEN {<<"it", "interrupt accepted">>} ELSE {})
+                   \cup (IF crossed THEN {<<"it", "sync">>} ELSE {})
+     /\ UNCHANGED <<vPaused, vStopped, vExit, vDirty>>
+
+RetEvent(e) ==
+  LET acc0 == [ports |-> vPorts, mem |-> M(vS), tm |-> vTm, mi |-> 1, ok |-> TRUE, paused |-> vPaused, stopped |-> vStopped, dub |-> FALSE]
+      acc  == LinesFold(acc0, e.lines, 1, e.msgs, vSum)
+      cands == {0} \cup {v \in 1..255 : CanAccept(vS, vPend, v)}
+      failing(c) == LET a == AfterAccept(c) IN ~a.ok \/ StepF(a.s).res \in {"err", "any"}
+      ok == CASE e.res = "ok" -> acc.stopped \/ (vS.pc = vExit /\ Len(e.lines) = 0)
+              [] e.res = "err" -> ~acc.stopped /\ ~vPaused /\ vS.pc # vExit /\ \E c \in cands : failing(c)
+              [] OTHER -> FALSE
+  IN /\ IF ok \/ acc.dub THEN TRUE
+        ELSE Rep("MISMATCH", e, "run returned", <<IF e.res = "ok" THEN "returned success although neither the exit address was reached nor a stop line received"
+                                                  ELSE IF e.res = "err" THEN "returned an error although the next instruction is executable" ELSE "panic">>)
+     /\ cov' = cov \cup {<<"ret", e.res>>}
+     /\ UNCHANGED <<vS, vPend, vReq, vEnt, runvars>>
+
+TcpEvent(e) ==
+  /\ IF e.bytes = FlattenSeq([i \in 1..Len(e.msgs) |-> Frame(e.msgs[i])]) THEN TRUE
+     ELSE Rep("MISMATCH", e @@ [res |-> "tcp"], "outgoing framing", <<"byte stream is not the escaped, newline-terminated message sequence">>)
+  /\ cov' = cov \cup {<<"tcp", "">>}
+  /\ UNCHANGED <<vS, vPend, vReq, vEnt, runvars>>
+
+(***************************************************************************)
+Consume ==
+  /\ l <= NRec
+  /\ LET e == Rec[l]
+     IN CASE e.k = "load" -> LoadEvent(e)
+          [] e.k = "req" -> ReqEvent(e)
+          [] e.k = "acc" -> AccEvent(e)
+          [] e.k = "step" -> StepEvent(e)
+          [] e.k = "end" -> EndEvent(e)
+          [] e.k = "cmp" -> CmpEvent(e)
+          [] e.k = "poll" -> PollEvent(e)
+          [] e.k = "it" -> ItEvent(e)
+          [] e.k = "ret" -> RetEvent(e)
+          [] e.k = "tcp" -> TcpEvent(e)
+          [] OTHER -> PrintT("MISMATCH " \o ToJson([id |-> l, prop |-> PROP, row |-> "unknown-event-kind"])) /\ UNCHANGED <<cov, vS, vPend, vReq, vEnt, runvars>>
+  /\ l' = l + 1
+
+Finish ==
+  /\ l = NRec + 1
+  /\ PrintT("COVERAGE " \o ToJson([rows |-> SetToSeq(cov)]))
+  /\ PrintT("DONE " \o ToString(NRec))
+  /\ l' = l + 1
+  /\ UNCHANGED <<cov, vS, vPend, vReq, vEnt, runvars>>
+
+Init == /\ l = 1 /\ cov = {}
+        /\ vS = [er |-> [n \in 0..7 |-> <<0, 0>>], ccr |-> 0, pc |-> 0, ov |-> <<>>, li |-> 1]
+        /\ vPend = <<>> /\ vReq = Zero64 /\ vEnt = Zero64 /\ vSum = <<0, 0>>
+        /\ vPorts = [k \in Ports |-> PortInit] /\ vOdr = [k \in Ports |-> 0] /\ vTm = TimerTraceInit
+        /\ vPaused = FALSE /\ vStopped = FALSE /\ vExit = -1 /\ vDirty = {}
+Next == Consume \/ Finish
+Spec == Init /\ [][Next]_vars
 =============================================================================
